@@ -140,7 +140,9 @@ def gen(rng, n_reset, n_mc):
         case["faults"] = faults
         cases.append(case)
     for _ in range(n_mc):
-        spec = net.rand_feeder_spec(rng, max_lines=4, ctrl="manual", allow_tie=False)
+        spec = net.rand_feeder_spec(rng, max_lines=4, ctrl=rng.choice(["manual", "main"]), allow_tie=False)
+        if spec["ctrl"]["type"] == "main":        # a main controller that fails (hardware / software) and is repaired: its draws are part of the stream
+            spec["ctrl"]["hw_rate"] = rng.choice([400, 900]); spec["ctrl"]["sw_rate"] = rng.choice([800, 2000])
         cases.append({"kind": "mc", "spec": spec, "n_inc": 10, "iters": rng.choice([5, 6]), "seed": rng.randint(0, 10 ** 6),
                       "rate": rng.choice([800.0, 2000.0]), "rep": rng.choice([3.0, 5.0]), "dist0": rng.randrange(4), "procs": [1, rng.choice([2, 3])]})
     return cases
@@ -150,7 +152,7 @@ def run(res):
     rng = random.Random(res.seed * 10037 + 83)
     nr, nm = (30, 2) if res.tier == "quick" else (600, 25)
     res.rule = ("reset: built systems (manual / MainController, microgrids in all modes, ties) run with late line / transformer faults so that the run ends mid-outage, "
-                "then reset_system, compared field by field with a fresh system; mc: run_monte_carlo with line failure rates 800-2000 /year, repair times drawn from truncated-normal / uniform / gamma / fixed distributions (one type per line, cyclically) (most iterations end mid-outage), "
+                "then reset_system, compared field by field with a fresh system; mc: run_monte_carlo (manual control, or an ICT-based main controller with hardware / software failure rates of 400-2000 /year) with line failure rates 800-2000 /year, repair times drawn from truncated-normal / uniform / gamma / fixed distributions (one type per line, cyclically) (most iterations end mid-outage), "
                 "5-6 iterations x 10 increments, debug vs fresh debug vs pools of 1 and 2-3 workers, all result files hashed. "
                 "non-trivial = distinct (number of fields that were dirty before the reset, controller type, microgrid)")
     run_cases(res, gen(rng, nr, nm), handler)
